@@ -38,6 +38,16 @@ pub fn push_case<'a>(bt: &mut Batch<'a>, rep: &mut Report, o: Opts, src: Src, sr
             for k in &r.kinds {
                 rep.count(&format!("kind-{}", k));
             }
+            // the string entry point must return what parse + format_html return (all of it: it writes through a buffer)
+            if let Src::Doc(md) = &src {
+                let c = o.to_comrak();
+                if let Ok(sh) = std::panic::catch_unwind(std::panic::AssertUnwindSafe(|| comrak::markdown_to_html(md, &c))) {
+                    rep.s_evals += 1;
+                    if sh.as_bytes() != r.html.as_slice() {
+                        rep.fail("string-api-differs", "markdown_to_html", input.clone(), crate::util::diff_window(&r.html, sh.as_bytes()).replace("real", "parse+format_html").replace("model", "markdown_to_html"));
+                    }
+                }
+            }
             let req = html_request(&o, &r);
             let i0 = input.clone();
             bt.push(format!("balshape {}", r.tree_wire), move |resp, rep| {
@@ -75,6 +85,30 @@ pub fn run(cfg: &Cfg, rep: &mut Report) {
     let mut rng = Rng::new(cfg.seed ^ 0xC10);
     let corpus = Corpus::load();
     rep.rule = "documents from the grammar/palette/bytes/corpus generators x random option vectors with raw HTML not passed through (unsafe_=false or escape=true); distinct_nontrivial counts distinct (node-kind sequence, option bits) classes with more than the Document node".into();
+    // documents whose rendering is larger than an I/O buffer (the string entry points write through one)
+    {
+        let mut bt = Batch::new();
+        let nlong = if cfg.tier_thorough { 60 } else { 12 };
+        for i in 0..nlong {
+            let mut md = String::new();
+            if i % 3 == 0 {
+                md.push_str("> ");
+            }
+            let want = 9_000 + 4_000 * (i % 4);
+            while md.len() < want {
+                let (d, _) = crate::gen::mixed_doc(&mut rng, &corpus);
+                if d.len() > 400 || d.contains('\u{0}') {
+                    continue;
+                }
+                md.push_str(&d);
+                md.push_str("\n\n");
+            }
+            let mut o = Opts::random(&mut rng);
+            constrain(&mut o, &mut rng);
+            push_case(&mut bt, rep, o, Src::Doc(md), "long-concatenation");
+        }
+        bt.run(&m, rep);
+    }
     let n = if cfg.tier_thorough { 150_000 } else if cfg.full { 30_000 } else { 24_000 };
     let mut done = 0;
     while done < n {
